@@ -235,6 +235,11 @@ pub fn metadata_of(cfg: &Cfg) -> Option<Metadata> {
 
 pub fn builder_of<W>(w: W, cfg: &Cfg) -> MuxerBuilder<W> {
     let mut b = MuxerBuilder::new(w);
+    // path bit 16: the independent settings (fast start, metadata) are given BEFORE the tracks
+    let settings_first = (cfg.path & 16) != 0;
+    if settings_first {
+        b = settings_of(b, cfg);
+    }
     // path bit 8: every setter is first called with a decoy (another codec, other numbers, even
     // invalid ones) and then with the real configuration: the last call wins
     let decoy = (cfg.path & 8) != 0;
@@ -265,6 +270,13 @@ pub fn builder_of<W>(w: W, cfg: &Cfg) -> MuxerBuilder<W> {
             b.audio(acodec(a.kind), a.rate, a.channels)
         };
     }
+    if !settings_first {
+        b = settings_of(b, cfg);
+    }
+    b
+}
+
+fn settings_of<W>(mut b: MuxerBuilder<W>, cfg: &Cfg) -> MuxerBuilder<W> {
     if let Some(m) = metadata_of(cfg) {
         b = b.with_metadata(m);
     }
